@@ -33,7 +33,8 @@ TRUSTED = ['msgpack.packb/unpackb are inverse on the document tree (tuples->list
 ASSUMPTIONS = ['dict keys are str (the property\'s nesting); python ints outside [-2^63, 2^64) are outside msgpack\'s integer '
                'domain and are expected to be rejected (OverflowError), not round-tripped',
                'element values are compared as bit patterns (NaN payloads, -0.0 preserved)']
-PARTIAL = ['save_state/load_state and save_checkpoint/load_latest_checkpoint are checked by the oracle only (pickle is opaque to the model)',
+PARTIAL = ['the CONTENT of pickled states (save_state/load_state) is checked by the oracle only (pickle is opaque to the model); which state / round a '
+           'save_checkpoint / load_latest_checkpoint sequence returns is modelled (ck_run) and proved (C16_checkpoint_last_save_wins)',
            'zlib and the SQLite engine are not modelled: the model stores the msgpack document tree per row']
 CASE_TIMEOUT = 30
 
@@ -526,6 +527,46 @@ def _sqlite_cases(rng, n):
   yield {'kind': 'sqlite', 'clients': [[b'a'.hex(), []]]}
 
 
+def _tagged_state(tag, jaxy):
+  """A small server-state-like tree whose content depends on `tag` (distinct tags -> distinct states)."""
+  mk = lambda dt, shape, salt: arr_spec(dt, 'native', 'C', shape, jax=jaxy, salt=salt)
+  return {'t': 'dict', 'items': [['params', {'t': 'dict', 'items': [['w', mk('float32', [2, 2], tag * 5)], ['b', mk('int32', [2], tag * 3 + 1)]]}],
+                                 ['tag', {'t': 'int', 'v': str(tag)}]]}
+
+
+def _ckptseq_cases(rng, n):
+  """Sequences of save_checkpoint / load_latest_checkpoint in one fresh directory (state k = _tagged_state(k)),
+  and of save_state / load_state on one path."""
+  fixed = [
+      [['save', None, None], ['save', None, None], ['load']],                 # default round_num = 0 twice
+      [['save', 3, 1], ['save', 3, 1], ['load']],                             # same round, different state
+      [['save', 3, 2], ['load'], ['save', 3, 2], ['load'], ['save', 3, 2], ['load']],
+      [['save', 1, 1], ['save', 2, 1], ['save', 2, 1], ['load']],
+      [['save', 1, 3], ['save', 2, 3], ['save', 1, 3], ['load'], ['save', 2, 3], ['load']],
+      [['load'], ['save', 0, 1], ['load'], ['save', 0, 1], ['load']],
+      [['save', 99999999, 1], ['save', 99999999, 1], ['load']],
+      [['save', 5, 1], ['save', 3, 1], ['load'], ['save', 5, 1], ['load']],    # a lower round is cleaned up at once
+      [['save', 9, 2], ['save', 10, 2], ['save', 11, 2], ['save', 10, 2], ['load'], ['save', 11, 2], ['load']],
+  ]
+  for ops in fixed:
+    yield {'kind': 'ckptseq', 'ops': ops, 'jax': False}
+  for i in range(n):
+    rounds = rng.sample(range(0, 12), rng.choice([1, 2, 3]))
+    keep = rng.choice([1, 1, 2, 3])
+    ops = []
+    for _ in range(rng.randrange(2, 8)):
+      r = rng.random()
+      if r < 0.7:
+        ops.append(['save', rng.choice(rounds), keep if rng.random() < 0.8 else rng.choice([1, 2, 3])])
+      else:
+        ops.append(['load'])
+    ops.append(['load'])
+    yield {'kind': 'ckptseq', 'ops': ops, 'jax': i % 4 == 0}
+  for i in range(max(3, n // 8)):
+    k = rng.choice([2, 3, 4])
+    yield {'kind': 'stateseq', 'n': k, 'jax': i % 2 == 0, 'reload_between': bool(i % 3)}
+
+
 def _state_spec(rng, jaxy=True):
   mk = lambda dt, shape: arr_spec(dt, 'native', 'C', shape, rng=rng, jax=jaxy)
   return {'t': 'dict', 'items': [
@@ -559,6 +600,8 @@ def generate(tier, rng):
     order = 'native' if (WIDTH[dt] == 1 or dt == 'bfloat16') else rng.choice(['native', 'swapped'])
     yield {'kind': 'tree', 'tree': arr_spec(dt, order, rng.choice(LAYOUTS), rng.choice(SHAPES), rng=rng)}
   for c in _sqlite_cases(rng, {'quick': 25, 'thorough': 150, 'search': 60}[tier]):
+    yield c
+  for c in _ckptseq_cases(rng, {'quick': 40, 'thorough': 250, 'search': 100}[tier]):
     yield c
   for i in range({'quick': 6, 'thorough': 30, 'search': 10}[tier]):
     yield {'kind': 'ckpt', 'api': ('state', 'checkpoint')[i % 2], 'tree': _state_spec(rng, jaxy=(i % 3 != 2)),
@@ -720,8 +763,83 @@ def _run_ckpt(case):
     shutil.rmtree(d, ignore_errors=True)
 
 
+def _which_state(obs_value, nstates, jaxy):
+  """Index of the tagged state equal to the loaded value (dtype / shape / bit patterns), -1 if none."""
+  got = _jax_to_np(obs_value)
+  for k in range(nstates):
+    if _first_diff(_expect(_tagged_state(k, jaxy)), got) is None:
+      return k
+  return -1
+
+
+def _run_ckptseq(case):
+  from fedjax.training import checkpoint
+  d = tempfile.mkdtemp(prefix='C16-')
+  try:
+    loads, k = [], 0
+    nsaves = sum(1 for op in case['ops'] if op[0] == 'save')
+    try:
+      for op in case['ops']:
+        if op[0] == 'save':
+          state = _build(_tagged_state(k, case['jax']))
+          kw = {}
+          if op[1] is not None:
+            kw['round_num'] = op[1]
+          if op[2] is not None:
+            kw['keep'] = op[2]
+          checkpoint.save_checkpoint(d, state, **kw)
+          k += 1
+        else:
+          got = checkpoint.load_latest_checkpoint(d)
+          loads.append(None if got is None else [int(got[1]), _which_state(_observe(got[0]), nsaves, case['jax'])])
+    except Exception as ex:  # pylint: disable=broad-except
+      return {'status': 'error', 'err': _err(ex), 'loads': loads}
+    return {'status': 'ok', 'loads': loads, 'files': sorted(os.listdir(d))}
+  finally:
+    shutil.rmtree(d, ignore_errors=True)
+
+
+def _run_stateseq(case):
+  from fedjax.core import serialization
+  d = tempfile.mkdtemp(prefix='C16-')
+  try:
+    p = os.path.join(d, 'state')
+    loads = []
+    try:
+      for k in range(case['n']):
+        serialization.save_state(_build(_tagged_state(k, case['jax'])), p)
+        if case['reload_between'] or k == case['n'] - 1:
+          loads.append([k, _which_state(_observe(serialization.load_state(p)), case['n'], case['jax'])])
+    except Exception as ex:  # pylint: disable=broad-except
+      return {'status': 'error', 'err': _err(ex), 'loads': loads}
+    return {'status': 'ok', 'loads': loads, 'files': sorted(os.listdir(d))}
+  finally:
+    shutil.rmtree(d, ignore_errors=True)
+
+
+def _ckpt_reference(ops):
+  """What the property asks of a checkpoint directory: a save (over)writes its round and keeps the
+  `keep` highest rounds; a load gives the highest round and the state LAST saved under it."""
+  files, k, out = {}, 0, []
+  for op in ops:
+    if op[0] == 'save':
+      r = 0 if op[1] is None else op[1]
+      keep = 1 if op[2] is None else op[2]
+      files[r] = k
+      k += 1
+      for old in sorted(files)[:-keep]:
+        del files[old]
+    else:
+      out.append(None if not files else [max(files), files[max(files)]])
+  return out
+
+
 def run(case):
   k = case['kind']
+  if k == 'ckptseq':
+    return _run_ckptseq(case)
+  if k == 'stateseq':
+    return _run_stateseq(case)
   if k == 'tree':
     return _run_tree(case)
   if k == 'sqlite':
@@ -772,6 +890,19 @@ def _jax_to_np(o):
 
 def oracle(case, obs):
   k = case['kind']
+  if k in ('ckptseq', 'stateseq'):
+    if obs['status'] != 'ok':
+      return [('ckpt-error', f'saving / loading raised {obs.get("err")}')]
+    want = _ckpt_reference(case['ops']) if k == 'ckptseq' else \
+        [[i, i] for i in range(case['n']) if case['reload_between'] or i == case['n'] - 1]
+    for i, (w, g) in enumerate(zip(want, obs['loads'])):
+      if w != g:
+        what = 'load_latest_checkpoint' if k == 'ckptseq' else 'load_state'
+        return [('ckpt-stale' if (w and g and g[0] == w[0]) else 'ckpt-round',
+                 f'{what} #{i + 1} returned (round/step, state) {g}; the state last saved there is {w} (-1 = no saved state)')]
+    if any(f.endswith('.tmp') for f in obs['files']):
+      return [('ckpt-tmp-left', 'a temporary file is left behind')]
+    return []
   if k == 'tree':
     return _tree_oracle(case['tree'], obs)
   if k == 'ckpt':
@@ -914,6 +1045,18 @@ def encode(case, obs):
       cl = fw.clist([f'({_zs(bytes.fromhex(i))}, {_val(v)})' for i, v in obs['clients']])
       o = f'(ODb {ids} {sizes} {cl})'
     term = f'(({c}, {o}))%Z'
+  elif k == 'ckptseq':
+    if obs['status'] != 'ok':
+      return None
+    ops, n = [], 0
+    for op in case['ops']:
+      if op[0] == 'save':
+        ops.append(f'CkSave {0 if op[1] is None else op[1]} {n} {1 if op[2] is None else op[2]}')
+        n += 1
+      else:
+        ops.append('CkLoad')
+    loads = fw.clist(['None' if g is None else f'(Some ({g[0]}, {fw.zlit(g[1])}))' for g in obs['loads']])
+    term = f'((CCkpt {fw.clist(ops)}, OCkpt {loads}))%Z'
   else:
     return None
   if len(term) > 12000:
@@ -945,6 +1088,8 @@ def _depth(spec):
 
 
 def nontrivial(case, obs):
+  if case['kind'] in ('ckptseq', 'stateseq'):
+    return True
   if case['kind'] == 'tree':
     return _count(case['tree']) > 0
   if case['kind'] == 'sqlite':
@@ -978,6 +1123,10 @@ def shrink(case):
         yield {'kind': 'tree', 'tree': arr_spec(s['dtype'], s['order'], s['layout'], shape)}
     if s['t'] == 'arr' and s['layout'] != 'C':
       yield {'kind': 'tree', 'tree': {**s, 'layout': 'C'}} if s['layout'] != 'broadcast' else case
+  elif case['kind'] == 'ckptseq':
+    ops = case['ops']
+    for i in range(len(ops) - 1):
+      yield {**case, 'ops': ops[:i] + ops[i + 1:]}
   elif case['kind'] == 'sqlite':
     cl = case['clients']
     for i in range(len(cl)):
